@@ -30,13 +30,7 @@ def run(ctx):
     p3(ctx, F)
     p4(ctx, F)
     p5(ctx, F)
-    before, nv = len(ctx.instances), len(ctx.violations)
-    p07.q3(ctx, F)
-    for i in ctx.instances[before:]:
-        i["rule"] = "C06.P6(" + i["rule"] + ")"
-    for v in ctx.violations[nv:]:
-        v["rule"] = "C06.P6(" + v["rule"] + ")"
-        v["key"] = "C06.P6|" + v["key"]
+    p6(ctx, F)
     ctx.assume("A-HASH: equal 64-bit hash implies equal position (C05 gives only a minimum-distance bound)")
 
 
@@ -255,3 +249,39 @@ def p5(ctx, F):
         okg = "current_game" in t and "unwrap" in t
     ctx.check("C06.P5", "search-runs-on-the-session's-current-game", okg, fn="uci::command_go", file=go["file"],
               what="the position searched must be the one set by the last position command", found=okg)
+
+
+def p6(ctx, F):
+    """Every definition of the move the driver returns is a legal-move source or None (None is C07's concern, not C06's)."""
+    fn = F.fn(DRIVER)
+    body = fn["hir"]["body"]
+    env = hir.Env(fn["hir"], F)
+    sym = hir.Sym(env, F)
+    rets = [hir.strip(n["e"]) for n, _ in hir.walk(body) if n.get("k") == "Ret" and n.get("e") is not None]
+    tail = hir.strip(body).get("expr")
+    if tail is not None:
+        rets.append(hir.strip(tail))
+    names = {r["to"]["name"] for r in rets if r.get("k") == "Path" and r["to"].get("res") == "local"}
+    ctx.check("C06.P6", "driver-returns-one-variable", len(names) == 1 and len(names) > 0 and
+              all(r.get("k") == "Path" or (r.get("k") == "Call" and (hir.callee_of(r) or "").startswith("core::panicking")) for r in rets),
+              fn=DRIVER, file=fn["file"], what="every return of the driver must return the running best move",
+              found=[hir.fmt(sym(r), 60) for r in rets])
+    if len(names) != 1:
+        return
+    var = list(names)[0]
+    n = 0
+    for nd, anc in hir.walk(body):
+        e = None
+        if nd.get("k") == "SLet" and nd["pat"].get("k") == "PBind" and nd["pat"]["name"] == var and nd.get("init") is not None:
+            e = nd["init"]
+        if nd.get("k") == "Assign" and hir.strip(nd["l"]).get("to", {}).get("name") == var:
+            e = nd["r"]
+        if e is None:
+            continue
+        n += 1
+        cls, detail = p07.classify_move_source(e, fn, F, sym)
+        ctx.check("C06.P6", "driver-holds-only-legal-moves:%s" % cls, cls in ("first-of-checked-list", "iteration-result", "constant-None"),
+                  fn=DRIVER, file=fn["file"], line=hir.line(nd),
+                  what="the driver's running best move is assigned a value that is neither the result of a completed iteration nor taken "
+                       "from a checked move list", found=detail)
+    ctx.floor("C06.P6", "definitions of the driver's move", n, 2)
